@@ -95,7 +95,8 @@ fn assignments(vars: &[usize]) -> Vec<Vec<(usize, bool)>> {
 }
 
 fn map_case(ctx: &mut Ctx, rng: &mut Rng) {
-    let n = rng.range(1, 7);
+    // mostly <= 7 variables; now and then 8-10 (deeper branch-and-bound trees)
+    let n = if crate::gen::label_map().is_none() && rng.chance(1, 12) { ctx.count("cases_with_8_to_10_variables", 1); rng.range(8, 10) } else { rng.range(1, 7) };
     let t = pick_function(n, rng);
     let cfg = random_bdd_cfg(rng, n);
     // query set: empty, all, random subsets in random order, incl. variables f ignores
@@ -212,12 +213,12 @@ fn check_result(ctx: &mut Ctx, which: &str, info: &Value, value_ok: bool, got: S
 }
 
 fn meu_case(ctx: &mut Ctx, rng: &mut Rng) {
-    let n = rng.range(2, 7);
+    let n = if crate::gen::label_map().is_none() && rng.chance(1, 12) { ctx.count("cases_with_8_to_10_variables", 1); rng.range(8, 10) } else { rng.range(2, 7) };
     let t = pick_function(n, rng);
     let cfg = random_bdd_cfg(rng, n);
     // decisions: a random subset (in random order); utility-bearing variables only on
     // levels below every decision variable; the rest are chance variables
-    let nd = rng.below(usize::min(n, 4) + 1);
+    let nd = rng.below(usize::min(n, if n >= 8 { 6 } else { 4 }) + 1);
     let mut dec = rng.perm(n);
     dec.truncate(nd);
     let level = |v: usize| cfg.order.iter().position(|x| *x == v).unwrap();
